@@ -434,6 +434,17 @@ def admits (t : Tree) (p : String) (create : Bool) : Bool :=
       | some a => !a.leaf && !(a.state = .draining)
       | none => false)
 
+/-! ### what a parent offers to the scheduling cycle -/
+
+/-- Queue.sortQueues before the sorting: nothing for a leaf; otherwise the children that are not STOPPED and have
+    pending resources — a draining child is offered like an active one (its applications keep running) -/
+def offered (t : Tree) (p : String) : List String :=
+  match t.find p with
+  | none => []
+  | some q =>
+    if q.leaf then []
+    else (t.filter (fun c => decide (c.parent = p) && !(decide (c.state = .stopped)) && strictlyGreaterThanZero (some c.pending))).map (·.path)
+
 /-! ### views the statements are about -/
 
 /-- what the running system books on a queue -/
